@@ -41,7 +41,8 @@ func (c08) Plan(tier string, seed int64) []mon.Workload {
 	}
 	return []mon.Workload{{Name: "v1", N: n}, {Name: "v2", N: n}, {Name: "subset-tables", N: n / 2},
 		{Name: "long-valid", N: int64(len(c08LongSizes) * len(c08LongShapes) * 2), Exhaustive: true},
-		{Name: "after-valid-twin", N: int64(len(c08BadV1) * len(c08TwinWraps)), Exhaustive: true}}
+		{Name: "after-valid-twin", N: int64(len(c08BadV1) * len(c08TwinWraps)), Exhaustive: true},
+		{Name: "bare-offenders", N: int64(len(c08BareOffenders) * len(c08BareContexts) * 2), Exhaustive: true}}
 }
 
 // invalid calls per builtin: label -> source text (identifiers a, b exist as plain names)
@@ -148,6 +149,10 @@ func (c08) base(c *mon.Ctx, v2 bool) []*gt.T {
 }
 
 func (k c08) Describe(c *mon.Ctx, workload string, i int64) any {
+	if workload == "bare-offenders" {
+		src, off, _ := c08BareCase(i)
+		return map[string]any{"source": src, "offender": off}
+	}
 	if workload == "long-valid" || workload == "after-valid-twin" {
 		return map[string]any{"index": i}
 	}
@@ -325,6 +330,10 @@ func (k c08) Run(c *mon.Ctx, workload string, i int64) {
 		k.afterTwin(c, i)
 		return
 	}
+	if workload == "bare-offenders" {
+		k.bareOffenders(c, i)
+		return
+	}
 	v2 := workload == "v2"
 	load := c08Loader(loadV1Err)
 	bad := c08BadV1
@@ -484,5 +493,64 @@ func (k c08) subset(c *mon.Ctx) {
 	}
 	if missing != "" {
 		c.Count("subset_cases_with_missing_function", 1)
+	}
+}
+
+// bare-offenders (exhaustive, v1 and v2): the offender in the SMALLEST
+// scripts that can hold it - alone, between statements that need no
+// parenthesis and no brace, after comments, with CRLF line ends, after a
+// finished loop - and with its keyword or name in every letter case the lexer
+// accepts. The generated bases above always contain calls and blocks, so a
+// loader that decides from the look of the text whether a script needs
+// checking at all is only visible here.
+var c08BareOffenders = []string{"break", "BREAK", "Break", "bReAk", "continue", "CONTINUE", "Continue", "cOnTiNuE", "nosuch()", "NoSuch(1)", "nosuch\n(\n)", "x = nosuch()", "x = [nosuch()]"}
+var c08BareContexts = []string{"OFF", "OFF\n", "\nOFF", "x = 1\nOFF", "OFF\nx = 1\n", "x = 1; OFF; y = 2", "# note\nOFF\n", "x = \"s\"\nOFF\n", "x = [1, 2]\ny = x[0]\nOFF\n",
+	"a\nOFF", "\n\n  OFF  \n\n", "x = 1 # comment\nOFF # comment", "x = 1\r\nOFF\r\n", "x = 'b r e a k'\nOFF", "x = 1.5 + 2 * 3 - a\ny = !x\nOFF\nz = x == y",
+	"for e in [1] { x = e }\nOFF\n", "for e in [1] { if e { break } }\nOFF", "if a { OFF }", "if a { x = 1 } else { OFF }", "if a { x = 1 } elif b { y = 2\nOFF\n}",
+	"for i = 0; i < 1; i = i + 1 { continue }\nif a {\n  OFF\n}\n", "x = {\"k\": 1}\nOFF", "\xef\xbb\xbfx = 1\nOFF"}
+
+func c08BareCase(i int64) (src, off string, v2 bool) {
+	v2 = i%2 == 1
+	i /= 2
+	off = c08BareOffenders[int(i)%len(c08BareOffenders)]
+	ctx := c08BareContexts[int(i)/len(c08BareOffenders)]
+	return strings.Replace(ctx, "OFF", off, 1), off, v2
+}
+
+func (k c08) bareOffenders(c *mon.Ctx, i int64) {
+	src, off, v2 := c08BareCase(i)
+	load, name := c08Loader(loadV1Err), "v1"
+	if v2 {
+		load, name = loadV2Err, "v2"
+	}
+	// the context alone (offender replaced by a plain statement) shows
+	// whether the loader takes the surroundings at all (a BOM, say)
+	ctxOnly := strings.Replace(src, off, "w = 0", 1)
+	if e, p := load(ctxOnly); e != nil || p != nil {
+		c.Count("bare_contexts_not_accepted_by_themselves", 1)
+		return
+	}
+	err, pan := load(src)
+	c.Eval(1)
+	c.Nontrivial(src + name)
+	c.Cell("bare_offenders", off)
+	cs := map[string]any{"source": src, "offender": off, "interpreter": name}
+	at := strings.Index(src, off)
+	switch {
+	case pan != nil:
+		c.Violate("check-panic", fmt.Sprintf("loading panicked: %v\n%q", pan, src), cs)
+	case err == nil:
+		c.Violate("offender-accepted:"+name+":bare", fmt.Sprintf("%q was accepted by the %s check pass in the script %q", off, name, src), cs)
+	default:
+		pe, ok := err.(*errchain.PlError)
+		if !ok || len(pe.PosChain) == 0 {
+			c.Violate("load-error-without-position", fmt.Sprintf("%T %v\n%q", err, err, src), cs)
+			return
+		}
+		if p := pe.PosChain[0]; p.Pos < at || p.Pos >= at+len(off) {
+			c.Violate("load-error-points-elsewhere:"+name, fmt.Sprintf("the offender %q occupies bytes [%d,%d) of %q but the error points at %s:%d:%d (offset %d): %s", off, at, at+len(off), src, p.File, p.Ln, p.Col, p.Pos, pe.Err), cs)
+		} else if d := drive.CheckPosition(p, "c08.p", src); d != "" {
+			c.Violate("load-error-bad-position", d+"\n"+src, cs)
+		}
 	}
 }
